@@ -268,6 +268,11 @@ pub trait Suite: Sync {
     fn slogin_finish(&self, st: &Blob, fin: &Blob) -> R<Vec<u8>>;
     /// decode through the blob's codec, encode through `to`
     fn recode(&self, kind: Kind, b: &Blob, to: Codec) -> R<Blob>;
+    /// The whole honest flow with every party's state kept IN MEMORY as typed objects (a truly uninterrupted run),
+    /// except that at persistence point i the object is saved and reloaded through the codec chain `plan[i]`
+    /// (empty = not reloaded).  Points: 0 setup before registration start, 1 client registration state, 2 password
+    /// file, 3 setup before login start, 4 client login state, 5 server login state.  Messages travel as native bytes.
+    fn flow_in_memory(&self, t: &mut Tape, pw: &[u8], cid: &[u8], ctx: Ob, idu: Ob, ids: Ob, plan: &[Vec<Codec>; 6]) -> Result<FlowOut, (usize, E)>;
     // key-exchange group level (C19)
     fn ke_keypair_pk(&self, sk: &[u8]) -> R<Vec<u8>>;
     fn ke_public_key(&self, sk: &[u8]) -> R<Vec<u8>>;
@@ -288,6 +293,41 @@ pub trait RemoteSuite: Sync {
     fn r_setup_recode(&self, setup: &[u8], fail_at: Option<usize>) -> (R<Vec<u8>>, Vec<String>);
     fn r_sreg_start(&self, setup: &[u8], req: &Blob, cid: &[u8], fail_at: Option<usize>) -> (R<Vec<u8>>, Vec<String>);
     fn r_slogin_start(&self, t: &mut Tape, setup: &[u8], file: Option<&Blob>, req: &Blob, cid: &[u8], ctx: Ob, idu: Ob, ids: Ob, fail_at: Option<usize>) -> (R<(Vec<u8>, Vec<u8>)>, Vec<String>);
+}
+
+/// everything observable in one honest flow
+#[derive(Clone, Debug, Default, PartialEq, Eq, Hash)]
+pub struct FlowOut {
+    pub setup: Vec<u8>,
+    pub req: Vec<u8>,
+    pub resp: Vec<u8>,
+    pub upload: Vec<u8>,
+    pub export_reg: Vec<u8>,
+    pub spk_reg: Vec<u8>,
+    pub file: Vec<u8>,
+    pub ke1: Vec<u8>,
+    pub ke2: Vec<u8>,
+    pub ke3: Vec<u8>,
+    pub sk_client: Vec<u8>,
+    pub export_login: Vec<u8>,
+    pub spk_login: Vec<u8>,
+    pub sk_server: Vec<u8>,
+    /// a login attempt without a password file served by the (possibly reloaded) setup of point 3
+    pub fake_ke2: Vec<u8>,
+    pub fake_state: Vec<u8>,
+}
+
+/// save + reload a typed object through a chain of codecs (Native = the type's own serialize/deserialize)
+fn reload_obj<T: serde::Serialize + serde::de::DeserializeOwned, X: CustomCode>(x: T, chain: &[Codec], ser: impl Fn(&T) -> Vec<u8>, de: impl Fn(&[u8]) -> Result<T, ProtocolError<X>>) -> R<T> {
+    let mut x = x;
+    for c in chain {
+        x = match c {
+            Codec::Native => de(&ser(&x)).map_err(pe)?,
+            Codec::Bincode => bincode::deserialize(&bincode::serialize(&x).map_err(|_| E::Harness("bincode ser".into()))?).map_err(|_| E::Serde)?,
+            Codec::Json => serde_json::from_slice(&serde_json::to_vec(&x).map_err(|_| E::Harness("json ser".into()))?).map_err(|_| E::Serde)?,
+        };
+    }
+    Ok(x)
 }
 
 macro_rules! recode_arm {
@@ -384,6 +424,48 @@ macro_rules! suite {
                     Kind::CLogin => recode_arm!(ClientLogin<$name>, b, to),
                     Kind::SLogin => recode_arm!(ServerLogin<$name>, b, to),
                 }
+            }
+            fn flow_in_memory(&self, t: &mut Tape, pw: &[u8], cid: &[u8], ctx: Ob, idu: Ob, ids: Ob, plan: &[Vec<Codec>; 6]) -> Result<FlowOut, (usize, E)> {
+                let mut o = FlowOut::default();
+                let at = |step: usize| move |e: E| (step, e);
+                let setup = ServerSetup::<$name>::new(t);
+                o.setup = setup.serialize().to_vec();
+                let rs = ClientRegistration::<$name>::start(t, pw).map_err(pe).map_err(at(1))?;
+                o.req = rs.message.serialize().to_vec();
+                let setup1 = reload_obj(setup.clone(), &plan[0], |x| x.serialize().to_vec(), |b| ServerSetup::<$name>::deserialize(b)).map_err(at(2))?;
+                let m = RegistrationRequest::<$name>::deserialize(&o.req).map_err(pe).map_err(at(2))?;
+                let ss = ServerRegistration::<$name>::start(&setup1, m, cid).map_err(pe).map_err(at(2))?;
+                o.resp = ss.message.serialize().to_vec();
+                let creg = reload_obj(rs.state, &plan[1], |x| x.serialize().to_vec(), |b| ClientRegistration::<$name>::deserialize(b)).map_err(at(3))?;
+                let m = RegistrationResponse::<$name>::deserialize(&o.resp).map_err(pe).map_err(at(3))?;
+                let rf = creg.finish(t, pw, m, ClientRegistrationFinishParameters::new(Identifiers { client: idu, server: ids }, None)).map_err(pe).map_err(at(3))?;
+                o.upload = rf.message.serialize().to_vec();
+                o.export_reg = rf.export_key.to_vec();
+                o.spk_reg = rf.server_s_pk.serialize().to_vec();
+                let m = RegistrationUpload::<$name>::deserialize(&o.upload).map_err(pe).map_err(at(4))?;
+                let file = ServerRegistration::<$name>::finish(m);
+                o.file = file.serialize().to_vec();
+                let ls = ClientLogin::<$name>::start(t, pw).map_err(pe).map_err(at(5))?;
+                o.ke1 = ls.message.serialize().to_vec();
+                let file2 = reload_obj(file, &plan[2], |x| x.serialize().to_vec(), |b| ServerRegistration::<$name>::deserialize(b)).map_err(at(6))?;
+                let setup2 = reload_obj(setup, &plan[3], |x| x.serialize().to_vec(), |b| ServerSetup::<$name>::deserialize(b)).map_err(at(6))?;
+                let m = CredentialRequest::<$name>::deserialize(&o.ke1).map_err(pe).map_err(at(6))?;
+                let sl = ServerLogin::start(t, &setup2, Some(file2), m.clone(), cid, ServerLoginStartParameters { context: ctx, identifiers: Identifiers { client: idu, server: ids } }).map_err(pe).map_err(at(6))?;
+                o.ke2 = sl.message.serialize().to_vec();
+                let fl = ServerLogin::start(t, &setup2, None, m, cid, ServerLoginStartParameters { context: ctx, identifiers: Identifiers { client: idu, server: ids } }).map_err(pe).map_err(at(6))?;
+                o.fake_ke2 = fl.message.serialize().to_vec();
+                o.fake_state = fl.state.serialize().to_vec();
+                let cl = reload_obj(ls.state, &plan[4], |x| x.serialize().to_vec(), |b| ClientLogin::<$name>::deserialize(b)).map_err(at(7))?;
+                let m = CredentialResponse::<$name>::deserialize(&o.ke2).map_err(pe).map_err(at(7))?;
+                let lf = cl.finish(pw, m, ClientLoginFinishParameters::new(ctx, Identifiers { client: idu, server: ids }, None)).map_err(pe).map_err(at(7))?;
+                o.ke3 = lf.message.serialize().to_vec();
+                o.sk_client = lf.session_key.to_vec();
+                o.export_login = lf.export_key.to_vec();
+                o.spk_login = lf.server_s_pk.serialize().to_vec();
+                let sst = reload_obj(sl.state, &plan[5], |x| x.serialize().to_vec(), |b| ServerLogin::<$name>::deserialize(b)).map_err(at(8))?;
+                let m = CredentialFinalization::<$name>::deserialize(&o.ke3).map_err(pe).map_err(at(8))?;
+                o.sk_server = sst.finish(m).map_err(pe).map_err(at(8))?.session_key.to_vec();
+                Ok(o)
             }
             fn ke_keypair_pk(&self, sk: &[u8]) -> R<Vec<u8>> {
                 Ok(KeyPair::<$ke>::from_private_key_slice(sk).map_err(pe)?.public().serialize().to_vec())
